@@ -13,6 +13,17 @@ type Unit struct {
 	Sweep bool // safety sweep (nopanic/variant, auto-invariants) instead of functional contract
 }
 
+// BoundedCheck is one bounded stand-in: spec/bounded/<File> holds an in-package test TestBoundedVC that
+// enumerates every input up to the stated bound on the real code and prints BOUNDED-OK or
+// BOUNDED-VIOLATED <failing input>.
+type BoundedCheck struct {
+	ID    string // e.g. "dhcp.NewPool"
+	Pkg   string // import-path suffix, e.g. "github.com/codelaboratoryltd/bng/pkg/dhcp"
+	File  string
+	Bound string // what is enumerated
+	Claim string // what is checked on every enumerated input
+}
+
 // PropDef describes how a property is decided.
 type PropDef struct {
 	ID             string
@@ -25,6 +36,10 @@ type PropDef struct {
 	Trusted        []string
 	Undecided      []string
 	Bounded        []string
+	// BoundedChecks: bounded stand-ins for functions outside the verifier's reach (exhaustive runs of
+	// the real function up to a stated bound through go test -overlay); labelled bounded in the
+	// evidence, never counted among the discharged obligations
+	BoundedChecks []BoundedCheck
 	Assumptions    []string
 	Explanation    string
 	Extra          func(r *propRun)
